@@ -22,11 +22,13 @@ def run(ctx, sess):
     P = sess.prog('default')
     f = P.fn('jls_copy')
     ctx.saw(f)
+    _late = lambda: unclosed_listing_rule(ctx, P, 'C17.9')
     ctx.rule('C17.1', 'the dispatch switch of jls_copy has a case for every chunk tag of the format')
     ctx.rule('C17.2', 'every content tag is re-issued through the matching writer call; payload fields are passed to the parameter of the same name; ids and positions come from the chunk that was read')
     ctx.rule('C17.3', 'the copy-side parsers of SOURCE_DEF and SIGNAL_DEF use the writer\'s field sequence')
     ctx.rule('C17.4', 'closed result: every return after the files were opened passes jls_wr_close and jls_raw_close; unclosed originals are accepted')
     ctx.rule('C17.6', 'no chunk is skipped for lack of buffer: the copy buffer covers the on-disk payload on every path to the payload read')
+    ctx.rule('C17.9', 'an unclosed original and its copy list the same time-series entries: for every track kind whose DATA chunks jls_copy re-issues by walking the file, the reader of that kind either starts at level 0 and follows the DATA chunk chain (every chunk on disk is reached), or the repair in jls_rd_open rebuilds the index of that kind')
     ctx.rule('C17.7', 'a content chunk is left out of the copy only when it is one the writer creates by itself: source/signal id 0, user data with storage type INVALID')
     ctx.rule('C17.5', 'omitted blocks: since the writer can record a level-0 block as omitted (index entry 0), the copy must consume the level-1 INDEX/SUMMARY chunks to reproduce it')
     sw = None
@@ -213,3 +215,24 @@ def run(ctx, sess):
                     bad.append(show(e)[:60])
             ctx.ob('C17.7', not bad, f.name, '%s is skipped only for the writer\'s own reserved item' % tag, c.where(),
                    'guards: reserved item only' if not bad else 'the re-issue is also skipped under %s: such items silently disappear from the copy' % bad)
+    _late()
+
+
+def unclosed_listing_rule(ctx, P, rule):
+    from ..ir import strip_casts, const_of
+    kinds = (('ANNOTATION', 'jls_core_annotations'), ('UTC', 'jls_core_utc'))
+    op = P.fn('jls_rd_open')
+    reach = P.reachable_from(['jls_rd_open'])
+    for kind, reader in kinds:
+        r = P.fn(reader)
+        ctx.saw(r)
+        seeks = list(r.calls('jls_core_ts_seek'))
+        if not seeks:
+            raise AnalysisBroken('%s: no jls_core_ts_seek' % reader)
+        levels = {const_of(strip_casts(c.args[2])) for c in seeks}
+        rebuilt = any(('repair' in name and kind.lower() in name.lower()) for name in reach)
+        ok = levels == {0} or rebuilt
+        ctx.ob(rule, ok, reader, '%s entries written after the last committed index' % kind, seeks[0].where(),
+               'the reader starts at level 0 and follows the DATA chunk chain' if levels == {0} else
+               ('repair rebuilds the %s index' % kind if rebuilt else
+                'the reader starts at index level %s and follows the chain of committed INDEX/SUMMARY chunks; repair does not rebuild the %s index, so entries written after the last committed index of an unclosed file are not listed by its reader, while jls_copy - which walks the DATA chunks - re-issues them: original and copy differ' % (sorted(levels), kind)))
